@@ -215,7 +215,14 @@ func (e VMExec) Free() error { return nil }
 func (e VMExec) ResolveModuleCode(name string) (string, bool, error) {
 	return e.H.ResolveCodeModule(name)
 }
-func (e VMExec) WriteStringTo(s string) error { e.H.Rec.write(s); return nil }
+func (e VMExec) WriteStringTo(s string) error {
+	e.H.Rec.write(s)
+	if e.TestingVmExecutor.PrintBuf != nil {
+		// the repository's own test host collects the output as well ("the host's output" of C17)
+		return e.TestingVmExecutor.WriteStringTo(s)
+	}
+	return nil
+}
 func (e VMExec) RegisterTrigger(cb, trig string, span herrors.Span, args []vv.Value) error {
 	call := sb.TriggerCall{Callback: cb, Trigger: trig, Span: ToSpan(span)}
 	for _, a := range args {
